@@ -15,7 +15,8 @@ REQUIRED_THEOREMS = [
     'getIn_assocPath', 'updateIn_frame', 'assocPath_frame', 'getIn_deleteIn', 'deleteIn_frame',
     'assocIn_eq_assocPath', 'startsWith_iff', 'getIn_updateIn', 'walk_converse_fails',
     'pathsToDict_dictToPaths', 'hierarchyDepth_eq_dictToPaths', 'pathsToDict_hierarchyDepth',
-    'getIn_of_mem_dictToPaths',
+    'getIn_of_mem_dictToPaths', 'normalize_append_normalize', 'normalize_append_clean',
+    'normalize_right_leg_fails',
 ]
 ANCHORS = [
     ('vivarium/core/store.py', ['Store.add_node']),
@@ -242,6 +243,11 @@ def run_impl(case):
                'startsWith': starts_with(tuple(case['a']), tuple(case['s']))}
         if T.normalize_path(n1) != n1:
             fails.append(f'normalize-not-idempotent: {p}')
+        for i in range(len(p) + 1):
+            # C17.normalize_append_normalize on the implementation: two legs = the whole route
+            if T.normalize_path(tuple(T.normalize_path(p[:i])) + p[i:]) != n1:
+                fails.append(f'normalize-not-compositional: {p} split at {i}')
+                break
         a, s = tuple(case['a']), tuple(case['s'])
         if starts_with(a, s) != (a[:len(s)] == s):
             fails.append(f'starts_with-not-prefix: {a} {s}')
@@ -561,7 +567,7 @@ def shrink(case):
 LEVEL_TEXT = ('Lean 4 theorems, for all trees and all paths (unbounded): walking a relative path with ".." '
               'anywhere reaches the node of its lexical normal form; path_to/path_for lead to the node; '
               'get_in reads what assoc_path/update_in wrote; delete_in removes exactly the entry; frame '
-              'lemmas for every diverging path; normalize idempotent; paths_to_dict rebuilds any nested dictionary '
+              'lemmas for every diverging path; normalize idempotent and compositional (two legs resolve as the whole route); paths_to_dict rebuilds any nested dictionary '
               '(unique keys, no empty sub-dictionary) from its dict_to_paths / hierarchy_depth enumeration, and get_in '
               'reads every enumerated leaf. The model is tied to the code by a '
               'correspondence check of every helper and of real Store navigation (node identity).')
